@@ -1,97 +1,67 @@
 package vecnet
 
-import (
-	"io"
-	"syscall"
-)
+// C17: the vectorised socket path. The boundary between the code under test
+// and its environment is the recvmsg(2) system call itself: symbolically
+// syscall.Syscall(SYS_RECVMSG, ...) is answered by a model of the kernel
+// (c17_kernel_sym.go); in the native replay the same stream arrives, in the
+// same segments, on a real AF_UNIX socket pair (c17_socket_native.go).
+// Everything above the system call - readFromBuffersLinux, recvmsg,
+// buildIovec, however they are cut into functions - is the real code.
+//
+// Contract of the stream: it arrives in segments; a recvmsg returns
+// min(bytes of the arrived segment not yet consumed, total iovec length) bytes,
+// scattered over the iovecs in order; the next segment arrives once the
+// previous one has been consumed; after the last segment the peer may close
+// (recvmsg then returns 0).
 
-//verif:intercept github.com/hugelgupf/p9/vecnet.recvmsg=verifModelRecvmsg
-
-// C17: the vectorised socket path. recvmsg(2) is replaced by its contract:
-// it scatters the next cur bytes of the stream into the iovecs in order,
-// 1 <= cur <= min(available, total iovec length); 0 bytes = peer closed.
-
-type verifStream struct {
-	data  []byte
-	pos   int
-	calls int
-	short int // budget of partial receives
-	fail  bool
-}
-
-var verifCurStream *verifStream
-
-type verifRawConn struct{}
-
-func (verifRawConn) Control(f func(fd uintptr)) error    { return nil }
-func (verifRawConn) Read(f func(fd uintptr) bool) error  { return nil }
-func (verifRawConn) Write(f func(fd uintptr) bool) error { return nil }
-
-type verifConn struct{}
-
-func (verifConn) SyscallConn() (syscall.RawConn, error) { return verifRawConn{}, nil }
-func (verifConn) Read(p []byte) (int, error)            { panic("generic path must not be used for a syscall.Conn") }
-
-func verifModelRecvmsg(bufs Buffers, rc syscall.RawConn) (int, error) {
-	s := verifCurStream
-	s.calls++
-	total := 0
-	for _, b := range bufs {
-		total += len(b)
-	}
-	left := len(s.data) - s.pos
-	if left == 0 {
-		return 0, io.EOF
-	}
-	want := total
-	if want > left {
-		want = left
-	}
-	cur := want
-	if s.short > 0 && want > 1 {
-		switch verifChoice(4) {
+// verifSegments picks the segmentation of a stream of n bytes: at most s cuts.
+func verifSegments(n, s int) []int {
+	var segs []int
+	left := n
+	for i := 0; i < s && left > 1; i++ {
+		seg := left
+		switch verifChoice(5) {
 		case 1:
-			cur = 1
+			seg = 1
 		case 2:
-			cur = want - 1
+			seg = 2
 		case 3:
-			cur = (want + 1) / 2
+			seg = left - 1
+		case 4:
+			seg = (left + 1) / 2
 		}
-		if cur != want {
-			s.short--
+		if seg >= left {
+			break
 		}
+		segs = append(segs, seg)
+		left -= seg
 	}
-	// scatter
-	k := 0
-	for _, b := range bufs {
-		for i := 0; i < len(b) && k < cur; i++ {
-			b[i] = s.data[s.pos+k]
-			k++
-		}
+	if left > 0 {
+		segs = append(segs, left)
 	}
-	s.pos += cur
-	return cur, nil
+	return segs
 }
 
-// VerifH_C17_Linux: buffers of lengths (a, b, c) filled through partial
-// receives; all bytes land at their stream positions.
+// VerifH_C17_Linux: buffers of lengths (a, b, c) filled from a segmented
+// stream; all bytes land at their stream positions.
 func VerifH_C17_Linux() {
 	la := 1 + verifChoice(verifParam("A", 4))
 	lb := verifChoice(verifParam("B", 4) + 1)
 	lc := verifChoice(verifParam("C", 2) + 1)
 	n := la + lb + lc
-	extra := verifChoice(2) // stream may hold more than requested (next frame)
+	extra := verifChoice(2) // the stream may hold more than requested (next frame)
 	data := verifNondetBytes(n + extra)
-	verifCurStream = &verifStream{data: data, short: verifParam("S", 3)}
+	segs := verifSegments(n+extra, verifParam("S", 3))
+	st := verifOpenStream(data, segs, false)
 	ba, bb, bc := make([]byte, la), make([]byte, lb), make([]byte, lc)
 	bufs := Buffers{ba, bb}
 	if lc > 0 {
 		bufs = append(bufs, bc)
 	}
-	got, err := bufs.ReadFrom(verifConn{})
+	got, err := bufs.ReadFrom(st.conn())
 	verifReach("linux-read")
 	verifAssert(err == nil && got == int64(n), "all requested bytes received")
-	verifAssert(verifCurStream.pos == n, "not a byte beyond the request consumed")
+	verifAssert(st.consumed() == n, "not a byte beyond the request consumed")
 	var d byte
 	for i := 0; i < la; i++ {
 		d |= ba[i] ^ data[i]
@@ -103,9 +73,10 @@ func VerifH_C17_Linux() {
 		d |= bc[i] ^ data[la+lb+i]
 	}
 	verifAssert(d == 0, "every byte lands at its stream position")
-	if verifCurStream.calls > 2 {
+	if len(segs) > 1 {
 		verifReach("partial-receives")
 	}
+	st.close()
 }
 
 // VerifH_C17_LinuxEOF: the peer closes before the buffers are full.
@@ -113,11 +84,13 @@ func VerifH_C17_LinuxEOF() {
 	la := 1 + verifChoice(3)
 	lb := verifChoice(4)
 	n := la + lb
-	have := verifChoice(n) // 0..n-1 bytes available
+	have := verifChoice(n) // 0..n-1 bytes arrive, then the peer closes
 	data := verifNondetBytes(have)
-	verifCurStream = &verifStream{data: data, short: 1}
+	segs := verifSegments(have, 1)
+	st := verifOpenStream(data, segs, true)
 	bufs := Buffers{make([]byte, la), make([]byte, lb)}
-	_, err := bufs.ReadFrom(verifConn{})
+	_, err := bufs.ReadFrom(st.conn())
 	verifReach("linux-eof")
 	verifAssert(err != nil, "a stream that ends mid-frame is an error")
+	st.close()
 }
